@@ -73,9 +73,13 @@ def is_cb(e):
     return k[1] if k and k[0] == 'callback' else None
 
 
-def objrec(x):
-    """kind of user object the pointer value x designates (a pointer variable, or the
-    iv_container_of / iv_list_entry expression that yields the object), public twins normalised"""
+def objrec(x, prog=None, f=None):
+    """kind of user object the pointer value x designates: by type (a pointer variable, a pointer-valued member,
+    the iv_container_of / iv_list_entry expression that yields the object; public twins normalised), and for an
+    untyped pointer (`void *ptr` handed to a helper) by what flows into it (h01.value_records)"""
+    if prog is not None and f is not None:
+        recs = h01.value_records(prog, f, x, USER_OBJECT_RECORDS)
+        return sorted(recs)[0] if recs else None
     x = strip(x)
     if isinstance(x, dict) and x.get('k') == 'var' and x.get('ptr') and x.get('record') in USER_OBJECT_RECORDS:
         return norm_rec(x['record'])
@@ -84,7 +88,18 @@ def objrec(x):
     return None
 
 
+LIST_MOVE = ('__iv_list_steal_elements', 'iv_list_splice', 'iv_list_splice_tail', 'iv_list_splice_init', 'iv_list_splice_tail_init')
+
+
 def discover_holders(prog):
+    """Every place where the library keeps a pointer to (or into) a user object beyond the running call:
+       list  : a node embedded in the object is linked into a list, or library records are linked onto / moved off a
+               list head embedded in the object;
+       tree  : a node embedded in the object is inserted into a tree;
+       store : the object's address (by type, or by value flow through an untyped helper parameter) is stored into
+               memory that is not a local of an active call: a global, a field, an array / heap slot, the kernel's
+               epoll_data, a sub-object's cookie, a marker field;
+       pub   : the address of a local that holds the object is stored into a field."""
     c = getattr(prog, '_c01_holders', None)
     if c is not None:
         return c
@@ -94,7 +109,11 @@ def discover_holders(prog):
             o = h01.list_op_member(f, e)
             if o is not None and o[0] == 'add' and o[1] and o[1][0] in USER_OBJECT_RECORDS:
                 found.setdefault(('list', o[1][0], o[1][1]), []).append((f, e))
-            if e['ev'] == 'call' and e.get('callee') in ('iv_avl_tree_insert', '__iv_list_steal_elements'):
+            if o is not None and o[0] == 'add' and e['ev'] == 'call' and len(e.get('args', [])) > 1:
+                hm = h01.arg_member(f, e, 1)         # the list head lives in the user object
+                if hm and hm[0] in USER_OBJECT_RECORDS:
+                    found.setdefault(('list', hm[0], hm[1]), []).append((f, e))
+            if e['ev'] == 'call' and (e.get('callee') == 'iv_avl_tree_insert' or e.get('callee') in LIST_MOVE):
                 ai = 1 if e['callee'] == 'iv_avl_tree_insert' else 0
                 lm = h01.arg_member(f, e, ai)
                 if lm and lm[0] in USER_OBJECT_RECORDS:
@@ -102,11 +121,15 @@ def discover_holders(prog):
                     found.setdefault((kind, lm[0], lm[1]), []).append((f, e))
             if e['ev'] == 'store' and e.get('op') == '=' and 'rhs' in e:
                 l = strip(e['lhs'])
-                if l.get('k') == 'var':
-                    if l.get('vk') in ('global', 'staticlocal') and objrec(e['rhs']):
-                        found.setdefault(('store', objrec(e['rhs']), l['name']), []).append((f, e))
+                if not isinstance(l, dict):
                     continue
-                rec = objrec(e['rhs'])
+                if l.get('k') == 'var':
+                    if l.get('vk') in ('global', 'staticlocal'):
+                        rec = objrec(e['rhs'], prog, f)
+                        if rec:
+                            found.setdefault(('store', rec, l['name']), []).append((f, e))
+                    continue
+                rec = objrec(e['rhs'], prog, f)
                 if rec:
                     steps = lvalue_steps(e['lhs'])
                     lm = last_member(e['lhs'])
@@ -126,8 +149,11 @@ def discover_holders(prog):
                     if lm == ('epoll_data', 'ptr') or ('epoll_event', 'data') in steps:
                         found.setdefault(('kernel', rec, 'epoll_event.data.ptr'), []).append((f, e))
                     elif l.get('k') in ('index', 'deref'):
-                        # an element of a dynamically allocated array / heap: whatever the spelling (a[i], *(a + i), *p)
-                        found.setdefault(('slot', rec, SLOT_NAME.get(rec, 'array')), []).append((f, e))
+                        # an element of a dynamically allocated array / heap: whatever the spelling (a[i], *(a + i), *p);
+                        # not the caller's local written through an out-parameter
+                        ptr = l['base'] if l.get('k') == 'index' else l['e']
+                        if not h01.points_to_local(prog, f, ptr):
+                            found.setdefault(('slot', rec, SLOT_NAME.get(rec, 'array')), []).append((f, e))
                     elif lm and lm[1] == 'parent':
                         found.setdefault(('parent', rec, '%s.%s' % lm), []).append((f, e))
                     elif lm and lm[0] in ('iv_state', 'iv_wait_thr_info'):
@@ -139,9 +165,30 @@ def discover_holders(prog):
                 rr = strip(e['rhs'])
                 if isinstance(rr, dict) and rr.get('k') == 'addr':
                     v = strip(rr['e'])
-                    if isinstance(v, dict) and v.get('k') == 'var' and v.get('record') in USER_OBJECT_RECORDS and v.get('ptr'):
-                        lm = last_member(e['lhs'])
-                        found.setdefault(('pub', v['record'], lm[1] if lm else canon(e['lhs'])), []).append((f, e))
+                    if isinstance(v, dict) and v.get('k') == 'var' and v.get('vk') in ('local', 'param'):
+                        # &local published in a field, the local holding the object (typed, or `void *alive = obj`)
+                        recs = h01.value_records(prog, f, v, USER_OBJECT_RECORDS) if '*' in str(v.get('type', '*')) else set()
+                        if recs:
+                            lm = last_member(e['lhs'])
+                            found.setdefault(('pub', sorted(recs)[0], lm[1] if lm else canon(e['lhs'])), []).append((f, e))
+    # array / heap slots of one object kind are one holder only if they are slots of one array: a second array (or a
+    # global reached through a pointer) that keeps such pointers is a holder of its own, which no rule covers
+    for sig in [k for k in found if k[0] == 'slot']:
+        groups = {}
+        for (f, e) in found[sig]:
+            l = strip(e['lhs'])
+            ident = h01.slot_identity(prog, f, l['base'] if l.get('k') == 'index' else l['e'])
+            sites = [(f, e)]
+            for k in [k for k in groups if (k & ident) or (not k and not ident)]:
+                ident = ident | k
+                sites = groups.pop(k) + sites
+            groups[ident] = groups.get(ident, []) + sites
+        if len(groups) > 1:
+            order = sorted(groups, key=lambda k: (-len(groups[k]), sorted(k)))
+            found[sig] = groups[order[0]]
+            for k in order[1:]:
+                name = 'array %s' % ','.join('.'.join(str(x) for x in d[1:]) for d in sorted(k)) if k else 'array (unnamed)'
+                found.setdefault(('slot', sig[1], name), []).extend(groups[k])
     prog._c01_holders = found
     return found
 
@@ -169,31 +216,148 @@ def _empty_edge(g, blk, si, key):
     return None
 
 
-def _link_transfer(g, key):
-    """link state of the node `key` (typed: any object of the record): L linked, N not linked, U unknown.
-    (Re)initialising a node does not take it off a list: only iv_list_del* does."""
-    def tr(e, S):
-        o = h01.list_op_member(g, e)
-        if o == ('add', key):
-            return frozenset('L')
-        if o == ('del', key):
-            return frozenset('N')
-        return S
-    return tr
+def _is_next_of(g, x, key):
+    """x reads H.next / H->next where H is the list node `key` (typed)"""
+    m = strip(x)
+    if isinstance(m, dict) and m.get('k') == 'member' and m.get('record') == 'iv_list_head' and m['field'] == 'next':
+        return h01.member_of_ptr(g, h01._node_ptr(m)) == key
+    return False
 
 
 def link_states(g, rec, field, cut=frozenset()):
-    """May-set of link states {'U','L','N'} of rec.field before every event."""
+    """May-set of link states {'U','L','N'} of rec.field before every event (L linked / list not empty, N not linked /
+    list empty, U unknown).  (Re)initialising a node does not take it off a list: only iv_list_del* does.
+
+    A list head H embedded in the object is also known to be empty when a *cursor* says so.  Must-facts about locals:
+         ('first', v)      v == H.next
+         ('succ', n, v)    n == v->next, read while v was linked
+         ('ne', v)         v != &H (v is an element, not the head)
+         ('cont', w, v, k) w == iv_container_of(v, k): &w->k is the node v
+       iv_list_del*(v) with first(v), ne(v), succ(n, v) makes n the first element; the edge v == &H with first(v) means
+       H.next == &H: the list is empty.  This is the invariant of the draining loops
+       `for (v = H.next, n = v->next; v != &H; v = n, n = v->next) { del(v) }` and `while ((v = H.next) != &H) del(v)`
+       whatever their form (iv_list_for_each_safe, hand-written, element or node pointer as cursor).
+       Any other write to a list (unrecognised store to next/prev, another list primitive) or a call that may run
+       library or user code forgets the cursor facts."""
     key = (rec, field)
+    NOFACTS = frozenset()
+    parts = h01.open_coded_parts(g)
+
+    def head_ptr(x):
+        return isinstance(x, dict) and h01.member_of_ptr(g, x) == key
+
+    def firsts(x, C):
+        """locals / the expression: is the value x known to be H.next"""
+        if _is_next_of(g, x, key):
+            return True
+        return any(('first', n) in C for n in h01.var_names(x))
+
+    def kill_var(C, x):
+        return frozenset(f for f in C if x not in f[1:3])
+
+    def tr(e, S):
+        L, C = S
+        o = h01.list_op(g, e)
+        if o is not None:
+            om = (o[0], h01.member_of_ptr(g, o[1]))
+            if om == ('add', key):
+                return (frozenset('L'), NOFACTS)
+            if om == ('del', key):
+                return (frozenset('N'), NOFACTS)
+            if o[0] == 'del':
+                # which local is the node taken off
+                vs = set(h01.var_names(o[1]))
+                a = strip(o[1])
+                if isinstance(a, dict) and a.get('k') == 'addr' and last_member(a['e']):
+                    for w in h01.base_var_names(a['e']):
+                        vs |= {f[2] for f in C if f[0] == 'cont' and f[1] == w and f[3] == last_member(a['e'])}
+                keep = frozenset(f for f in C if f[0] == 'cont')
+                for v in vs:
+                    if ('first', v) in C and ('ne', v) in C:
+                        nxt = {f[1] for f in C if f[0] == 'succ' and f[2] == v}
+                        return (L, keep | frozenset(('first', n) for n in nxt))
+                return (L, keep)
+            return (L, frozenset(f for f in C if f[0] == 'cont'))
+        if e['ev'] == 'decl':
+            return (L, kill_var(C, e['name']))
+        if e['ev'] == 'store':
+            l = strip(e['lhs'])
+            if isinstance(l, dict) and l.get('k') == 'var':
+                x = l['name']
+                C2 = kill_var(C, x)
+                if e.get('op') != '=' or 'rhs' not in e or l.get('vk') not in ('local', 'param'):
+                    return (L, C2)
+                r = strip(e['rhs'])
+                add = set()
+                if h01.is_localvar(r) and r['name'] != x:
+                    y = r['name']
+                    for f in C:
+                        if f[0] in ('first', 'ne') and f[1] == y:
+                            add.add((f[0], x))
+                        elif f[0] == 'succ' and f[1] == y and f[2] != x:
+                            add.add(('succ', x, f[2]))
+                elif _is_next_of(g, e['rhs'], key):
+                    add.add(('first', x))
+                elif isinstance(r, dict) and r.get('k') == 'member' and r.get('record') == 'iv_list_head' and r['field'] == 'next':
+                    base = h01._node_ptr(r)
+                    vs = set(h01.var_names(base))
+                    if _is_next_of(g, base, key):
+                        vs |= {f[1] for f in C if f[0] == 'first'}
+                    for v in vs:
+                        if v != x and h01.is_local_name(g, v):
+                            add.add(('succ', x, v))
+                elif isinstance(r, dict) and r.get('k') == 'container_of':
+                    k2 = (r.get('record'), r.get('member'))
+                    vs = set(h01.var_names(r['e']))
+                    if _is_next_of(g, r['e'], key):
+                        vs |= {f[1] for f in C if f[0] == 'first'}
+                    for v in vs:
+                        if v != x:
+                            add.add(('cont', x, v, k2))
+                return (L, C2 | frozenset(add))
+            if id(e) in parts:
+                return S
+            lm = last_member(e['lhs'])
+            if lm and lm[0] == 'iv_list_head':
+                return (L, frozenset(f for f in C if f[0] == 'cont'))
+            return S
+        if e['ev'] == 'call':
+            if 'fnexpr' in e or not h01.harmless_call(g, e):
+                return (L, NOFACTS)
+            for a in e.get('args', []):
+                a = strip(a)
+                if isinstance(a, dict) and a.get('k') == 'addr':
+                    v = strip(a['e'])
+                    if isinstance(v, dict) and v.get('k') == 'var':
+                        C = kill_var(C, v['name'])
+            return (L, C)
+        return S
+
     def edge(blk, si, S):
         if (blk.id, si) in cut:
             return None
+        L, C = S
         t = _empty_edge(g, blk, si, key)
         if t is not None:
-            return frozenset('N') if t == 'empty' else frozenset('L')
-        return S
-    _, ev_in = forward(g, frozenset('U'), _link_transfer(g, key), lambda a, b: a | b, edge=edge)
-    return ev_in
+            return (frozenset('N') if t == 'empty' else frozenset('L'), C)
+        for (op, lc, rc, l, r) in h01.edge_atoms(blk, si):
+            if op not in ('==', '!='):
+                continue
+            for (a, b) in ((l, r), (r, l)):
+                if not (isinstance(a, dict) and head_ptr(b)):
+                    continue
+                if op == '==' and firsts(a, C):
+                    L = frozenset('N')
+                elif op == '!=':
+                    if firsts(a, C):
+                        L = frozenset('L')
+                    C = C | frozenset(('ne', n) for n in h01.var_names(a) if h01.is_local_name(g, n))
+        return (L, C)
+
+    def join(a, b):
+        return (a[0] | b[0], a[1] & b[1])
+    _, ev_in = forward(g, (frozenset('U'), NOFACTS), tr, join, edge=edge)
+    return {p: S[0] for p, S in ev_in.items()}
 
 
 def exit_points(g):
@@ -242,11 +406,10 @@ def edges_excluding(g, field, val, objs):
     """conditional edges on which record.field of the object held in one of the locals `objs` cannot be `val`"""
     out = set()
     for b, blk in g.blocks.items():
-        if blk.term and blk.term.get('cond') is not None and len(blk.succ) == 2 and blk.term.get('cls') not in ('SwitchStmt', 'MethodDispatch'):
-            for si in (0, 1):
-                for (op, lc, rc_, l, r) in norm_cond(blk.term['cond'], si == 0):
-                    if last_member(l) == field and (h01.base_var_names(l) & objs) and _excludes(op, rc_, val):
-                        out.add((b, si))
+        for si in range(len(blk.succ)):
+            for (op, lc, rc_, l, r) in h01.edge_atoms(blk, si):
+                if last_member(l) == field and (h01.base_var_names(l) & objs) and _excludes(op, rc_, val):
+                    out.add((b, si))
     return out
 
 
@@ -272,9 +435,9 @@ def stale(ctx):
     for (f, g) in h01.callback_contexts(prog):
         for e in g.events():
             if h01.cb_kind(g, e):
-                m = h01.call_target(g, e)
-                fields.add((m.get('record'), m['field']))
-        reps, objvars, markers = stale_after_callback(g, lambda e, g=g: h01.cb_kind(g, e))
+                for m in h01.call_targets(g, e):
+                    fields.add((m.get('record'), m['field']))
+        reps, objvars, markers = h01.stale_after_callback(g, lambda e, g=g: h01.cb_kind(g, e))
         byvar = {}
         for (e, v, acc, cb) in reps:
             byvar.setdefault(v, []).append((e, acc, cb))
@@ -289,9 +452,16 @@ def stale(ctx):
                    path=path_to(g, e0) if e0 else None, fn=f.q)
     # what must not vanish is the set of handler fields user code is entered through, not the number of call
     # statements (a trampoline merges sites, an unrolled loop multiplies them)
-    if len(fields) < N_CALLBACK_FIELDS:
-        raise AnalysisBroken('user callbacks through only %d handler fields found (%d confirmed by reading): %s'
-                             % (len(fields), N_CALLBACK_FIELDS, sorted(fields)))
+    # A handler field that vanished concerns that object kind only: its instance fails, the others stand (C11
+    # borrows the instances of the child-wait functions).
+    from ..analyses import CALLBACK_FIELDS
+    missing = sorted(set(CALLBACK_FIELDS) - fields)
+    for (rec, fld) in missing:
+        ctx.ob('R-C01a', 'entered-through:%s.%s' % (rec, fld), False,
+               detail='no call through the handler field %s.%s is found any more: where user code of this kind is entered, and '
+                      'what is touched after it, cannot be shown' % (rec, fld))
+    if len(CALLBACK_FIELDS) != N_CALLBACK_FIELDS:
+        raise AnalysisBroken('%d handler fields tabled, %d confirmed by reading' % (len(CALLBACK_FIELDS), N_CALLBACK_FIELDS))
 
 
 def one_shot(ctx):
@@ -314,11 +484,13 @@ def one_shot(ctx):
                 continue        # not reachable in this context
             kind = h01.cb_kind(g, cs)
             rec, link, extra = ONE_SHOT[kind]
-            fe = h01.call_target(g, cs)
+            fe = h01.call_targets(g, cs)[0]
             objs = h01.var_names(fe['base'])
-            if not objs:
-                raise AnalysisBroken('%s: the object of %s is not held in a local' % (f.name, describe(cs)))
+            # (an object that is not held in a local cannot be shown unlinked: the site fails, the others are still judged)
             ok = any(('unl', o, (rec, link)) in S for o in objs)
+            if not ok and not h01.field_exists(prog, rec, link):
+                # the batch node of the kind was renamed: it is the node through which the object was found
+                ok = any(f[0] == 'via' and f[1] in objs and norm_rec(f[2][0]) == rec and ('unl', f[1], f[2]) in S for f in S)
             ok2 = (not extra) or any(('st', o, (extra[0], extra[1])) in S for o in objs)
             r = res.setdefault((kind, cs['loc']), dict(ok=True, ok2=True, cs=cs, g=g, f=f, bad=None, bad2=None, obj=canon(fe['base']).split('@')[0]))
             if not ok and r['ok']:
@@ -347,7 +519,7 @@ def one_shot(ctx):
 # R-C01c
 # --------------------------------------------------------------------------
 
-def _check_unlinked(g, un, rec, fld, spec):
+def _check_unlinked(g, un, rec, fld, spec, prog=None, sites=None):
     pts = exit_points(g)
     key = (rec, fld)
     if spec.get('when'):
@@ -369,13 +541,37 @@ def _check_unlinked(g, un, rec, fld, spec):
         ok = sts <= {'N'} and bool(sts)
         det = 'link state of %s.%s at every return of %s: %s (N = not linked)' % (rec, fld, un.name, sorted(sts))
     if ok and spec.get('lock'):
+        # the lock that protects the list is the one held wherever the library links a node of this kind into it
+        # (whatever it is called and wherever it lives); the unlink must be made under it
+        need = link_locks(prog, sites) if sites else frozenset()
+        if not need:
+            raise AnalysisBroken('the nodes are not linked in under one common lock (expected: %s)' % spec['lock'])
         lk = h01.locks_held(g)
         for e in g.events():
             if h01.list_op_member(g, e) == ('del', key):
-                if spec['lock'] not in (lk.get((e['_b'], e['_i'])) or ()):
+                if not (need <= set(lk.get((e['_b'], e['_i'])) or ())):
                     ok = False
-                    det += '; unlinked without %s' % spec['lock']
+                    det += '; unlinked without %s' % ', '.join(sorted(need))
     return ok, det
+
+
+def link_locks(prog, sites):
+    """locks held at every place (in every root context, lock wrappers inlined) where a node is linked in: sites = [(f, e)]"""
+    locs = {e['loc'] for (_, e) in sites}
+    need = None
+    from .. import roles
+    for r in roles.roots(prog):
+        g = h01.inlined(prog, r)
+        hits = [e for e in g.events() if e.get('loc') in locs and h01.list_op(g, e) is not None]
+        if not hits:
+            continue
+        lk = h01.locks_held(g)
+        for e in hits:
+            S = lk.get((e['_b'], e['_i']))
+            if S is None:
+                continue        # unreachable copy
+            need = set(S) if need is None else (need & set(S))
+    return frozenset(need or ())
 
 
 def _check_tree(g, un, rec, fld, spec):
@@ -383,9 +579,12 @@ def _check_tree(g, un, rec, fld, spec):
     def tr(e, s):
         return True if (is_call(e, 'iv_avl_tree_delete') and h01.arg_member(g, e, 1) == (rec, fld)) else s
     def edge(blk, si, s):
-        if spec.get('unless') and blk.term and blk.term.get('cond') is not None and len(blk.succ) == 2:
-            for (op, lc, rc_, l, r) in norm_cond(blk.term['cond'], si == 0):
+        if spec.get('unless'):
+            # an edge on which the flag field cannot be 0: `flags & BIT` true, `flags != 0`, `flags == BIT`, `flags > 0`
+            for (op, lc, rc_, l, r) in h01.edge_atoms(blk, si):
                 if op == '!=' and rc_ == '0' and spec['unless'] in {(x.get('record'), x.get('field')) for x in walk(l) if x.get('k') == 'member'}:
+                    return True
+                if last_member(l) == spec['unless'] and _excludes(op, rc_, 0):
                     return True
         return s
     _, ev_in = forward(g, False, tr, lambda a, b: a and b, edge=edge)
@@ -393,11 +592,27 @@ def _check_tree(g, un, rec, fld, spec):
     return ok, 'iv_avl_tree_delete(&obj->%s) on every path%s' % (fld, (' except where ' + spec['why']) if spec.get('why') else '')
 
 
-def _check_marker(g, un, rec, marker, spec):
+def _loc_key(lv):
+    lm = last_member(lv)
+    if lm:
+        return lm
+    v = strip(lv)
+    if isinstance(v, dict) and v.get('k') == 'var' and v.get('vk') in ('global', 'staticlocal'):
+        return ('var', v['name'])
+    return None
+
+
+def _check_marker(g, un, rec, marker, spec, sites=None):
     """Postcondition: at every return the marker does not designate the object being unregistered.
-    M = may designate it, N = does not (NULL stored, or tested different / NULL)."""
-    mrec, mfld = marker.split('.')
-    mkey = (mrec, mfld)
+    M = may designate it, N = does not (NULL stored, or tested different / NULL).
+    The marker is the location(s) the library stores the object pointer into at the discovered sites (a field of the
+    thread state, wherever it lives; a file-scope variable)."""
+    keys = {_loc_key(e['lhs']) for (_, e) in (sites or [])} - {None}
+    if not keys:
+        mrec, mfld = marker.split('.')
+        keys = {(mrec, mfld)}
+    def is_marker(x):
+        return _loc_key(x) in keys
     objs = h01.object_vars(g, un, rec)
     if not objs:
         raise AnalysisBroken('%s: no parameter of kind %s' % (un.name, rec))
@@ -409,7 +624,7 @@ def _check_marker(g, un, rec, marker, spec):
             if op not in ('==', '!='):
                 continue
             for (a, b) in ((l, r), (r, l)):
-                if not isinstance(a, dict) or last_member(a) != mkey:
+                if not isinstance(a, dict) or not is_marker(a):
                     continue
                 if isinstance(b, dict) and h01.const_of(b) == 0:
                     if op == '==':
@@ -425,17 +640,15 @@ def _check_marker(g, un, rec, marker, spec):
             return frozenset('N')
         if isinstance(x, dict) and x.get('k') == 'cond':     # marker = (marker == obj) ? NULL : marker
             return value(x['a'], refine(norm_cond(x['c'], True), S)) | value(x['b'], refine(norm_cond(x['c'], False), S))
-        if isinstance(x, dict) and last_member(x) == mkey:
+        if isinstance(x, dict) and is_marker(x):
             return S                                          # the marker's own value
         return frozenset('M')
     def tr(e, S):
-        if e['ev'] == 'store' and last_member(e['lhs']) == mkey:
+        if e['ev'] == 'store' and is_marker(e['lhs']):
             return value(e['rhs'], S) if e.get('op') == '=' and 'rhs' in e else frozenset('M')
         return S
     def edge(blk, si, S):
-        if blk.term and blk.term.get('cond') is not None and len(blk.succ) == 2 and blk.term.get('cls') not in ('SwitchStmt', 'MethodDispatch'):
-            S = refine(norm_cond(blk.term['cond'], si == 0), S)
-        return S
+        return refine(h01.edge_atoms(blk, si), S)
     _, ev_in = forward(g, frozenset('M'), tr, lambda a, b: a | b, edge=edge)
     sts = set()
     for p in exit_points(g):
@@ -456,8 +669,8 @@ def _index_fixed(g, objs, idxkeys, free, with_edges):
             return s if v == free else False
         return s
     def edge(blk, si, s):
-        if with_edges and blk.term and blk.term.get('cond') is not None and len(blk.succ) == 2:
-            for (op, lc, rc_, l, r) in norm_cond(blk.term['cond'], si == 0):
+        if with_edges:
+            for (op, lc, rc_, l, r) in h01.edge_atoms(blk, si):
                 if op == '==' and rc_ == str(free) and last_member(l) in idxkeys and (h01.base_var_names(l) & objs):
                     return True
         return s
@@ -564,15 +777,14 @@ def _check_epoll_sync(g, un, prog, t):
             return frozenset((s_, 'N') for (s_, _) in S)
         return S
     def edge(blk, si, S):
-        if blk.term and blk.term.get('cond') is not None and len(blk.succ) == 2:
-            for (op, lc, rc_, l, r) in norm_cond(blk.term['cond'], si == 0):
-                if op == '==' and {last_member(l), last_member(r)} == {('iv_fd_', 'registered_bands'), ('iv_fd_', 'wanted_bands')}:
-                    S = frozenset((True, l_) for (_, l_) in S)
-            st = _empty_edge(g, blk, si, key)
-            if st == 'empty':      # impossible when certainly linked
-                S = frozenset((s_, 'N') for (s_, l_) in S if l_ != 'L')
-            elif st == 'nonempty':
-                S = frozenset((s_, 'L') for (s_, l_) in S if l_ != 'N')
+        for (op, lc, rc_, l, r) in h01.edge_atoms(blk, si):
+            if op == '==' and {last_member(l), last_member(r)} == {('iv_fd_', 'registered_bands'), ('iv_fd_', 'wanted_bands')}:
+                S = frozenset((True, l_) for (_, l_) in S)
+        st = _empty_edge(g, blk, si, key)
+        if st == 'empty':      # impossible when certainly linked
+            S = frozenset((s_, 'N') for (s_, l_) in S if l_ != 'L')
+        elif st == 'nonempty':
+            S = frozenset((s_, 'L') for (s_, l_) in S if l_ != 'N')
         return S if S else None
     _, ev_in = forward(g, frozenset([(False, 'U')]), tr, lambda a, b: a | b, edge=edge)
     sts = set()
@@ -595,59 +807,102 @@ def _check_sub(g, un, rec, fld, spec):
     return ok, '%s(&obj->%s) on every path of %s' % (spec['sub'], fld, un.name)
 
 
+def _holder_tables(prog, found, spec):
+    if spec.get('methods') == 'deferring':
+        tables = deferring_tables(prog)
+        if not tables:
+            raise AnalysisBroken('no poll method defers notifications')
+    elif spec.get('methods') == 'poll':
+        tables = slot_array_tables(prog, found)
+        if not tables:
+            raise AnalysisBroken('no poll-array method found')
+    else:
+        tables = [None]
+    return tables
+
+
+def _holder_check(prog, found, sig, spec, un, t, idxkeys, fld=None):
+    rec = sig[1]
+    fld = sig[2] if fld is None else fld         # where the holder lives now (see holders(): identity by role)
+    g = h01.inlined(prog, un, method_table=t, expand_methods=True, prune=True)
+    if spec['check'] == 'unlinked':
+        return _check_unlinked(g, un, rec, fld, spec, prog=prog, sites=found[sig])
+    if spec['check'] == 'tree':
+        return _check_tree(g, un, rec, fld, spec)
+    if spec['check'] == 'marker':
+        return _check_marker(g, un, rec, sig[2], spec, sites=found[sig])
+    if spec['check'] == 'poll-slot':
+        return _check_poll_slot(g, un, rec, spec, idxkeys)
+    if spec['check'] == 'heap-slot':
+        return _check_heap_slot(g, un, rec, spec)
+    if spec['check'] == 'epoll-sync':
+        return _check_epoll_sync(g, un, prog, t)
+    if spec['check'] == 'sub':
+        return _check_sub(g, un, rec, sig[2], spec)
+    raise AnalysisBroken('unknown holder check %s' % spec['check'])
+
+
 def holders(ctx):
+    """Every tabled holder is an instance of its own: when its anchor (the place where the pointer is kept, the
+    kind's unregister call, the poll methods concerned, a discriminating test) cannot be found, that instance -- and
+    only that one -- is reported as a failed obligation ("cannot be shown"), and the other holders are still checked.
+    A patch to the timer or inotify code can therefore neither silence nor break the descriptor / child-wait instances
+    that C03 (R-C03e) and C11 (R-C11f) borrow."""
     prog = ctx.prog
-    found = discover_holders(prog)
+    found = dict(discover_holders(prog))
+    # A tabled holder is identified by its role -- what it is (list node, tree node, the library's own pointer to
+    # the object, published address) for which object kind -- not by the record and field it happens to live in:
+    # when the tabled location is gone and exactly one uncovered holder of that role exists for the kind, it is that
+    # holder (moved into a sub-struct, renamed, turned into a file-scope variable).  The instance keeps its tabled name.
+    ROLE = {'marker': 'ptr', 'parent': 'ptr', 'store': 'ptr'}
+    actual = {}
+    for sig in sorted(HOLDERS):
+        if sig[0] in ('marker', 'parent', 'pub', 'list', 'tree') and sig not in found:
+            role = ROLE.get(sig[0], sig[0])
+            gone = [k for k in HOLDERS if k not in found and k[1] == sig[1] and ROLE.get(k[0], k[0]) == role]
+            cands = [k for k in found if k not in HOLDERS and k[1] == sig[1] and ROLE.get(k[0], k[0]) == role]
+            if len(cands) == 1 and len(gone) == 1:
+                actual[sig] = cands[0]
+    for sig, k in actual.items():
+        found[sig] = found.pop(k)
     for sig in sorted(found):
         f, e = found[sig][0]
         if sig not in HOLDERS:
             ctx.ob('R-C01c', 'holder:%s %s.%s' % sig, False, loc=e['loc'],
                    detail='%s keeps a pointer to a %s (%s) and no unregister rule covers this holder' % (f.name, sig[1], describe(e)), fn=f.q)
     for sig, spec in sorted(HOLDERS.items()):
-        if sig not in found:
-            raise AnalysisBroken('tabled holder %s %s.%s no longer exists' % sig)
         inst = 'holder:%s %s.%s' % sig
+        rec = sig[1]
+        un = prog.fn(UNREGISTER[rec]) if (rec in UNREGISTER and prog.has_fn(UNREGISTER[rec])) else None
+        if sig not in found:
+            # the anchor of this instance vanished: it cannot be shown that unregister undoes it
+            ctx.ob('R-C01c', inst, False, loc=un.loc if un else None,
+                   detail='tabled holder %s %s.%s is no longer found in the source: what keeps the pointer now, and whether '
+                          'unregister undoes it, cannot be shown' % sig, fn=un.q if un else None)
+            continue
         f0, e0 = found[sig][0]
         if spec['check'] == 'exempt':
             ctx.exempt('R-C01c', inst, spec['why'])
             ctx.ob('R-C01c', inst, True, loc=e0['loc'], detail='exempt: ' + spec['why'], fn=f0.q)
             continue
-        rec = sig[1]
-        un = prog.fn(UNREGISTER[rec])
-        if spec.get('methods') == 'deferring':
-            tables = deferring_tables(prog)
-            if not tables:
-                raise AnalysisBroken('no poll method defers notifications')
-        elif spec.get('methods') == 'poll':
-            tables = slot_array_tables(prog, found)
-            if not tables:
-                raise AnalysisBroken('no poll-array method found')
-        else:
-            tables = [None]
-        idxkeys = None
-        if spec['check'] == 'poll-slot':
-            idxkeys = slot_index_keys(prog, found, sig, rec)
-            if not idxkeys:
-                raise AnalysisBroken('index field of the %s array slot not found' % rec)
+        try:
+            if un is None:
+                raise AnalysisBroken('unregister call %s of the kind not found' % UNREGISTER.get(rec))
+            tables = _holder_tables(prog, found, spec)
+            idxkeys = None
+            if spec['check'] == 'poll-slot':
+                idxkeys = slot_index_keys(prog, found, sig, rec)
+                if not idxkeys:
+                    raise AnalysisBroken('index field of the %s array slot not found' % rec)
+        except AnalysisBroken as ex:
+            ctx.ob('R-C01c', inst, False, loc=e0['loc'], detail='cannot be shown: %s' % ex, fn=f0.q)
+            continue
         for t in tables:
-            g = h01.inlined(prog, un, method_table=t, expand_methods=True, prune=True)
             tag = (' [%s]' % t.replace('iv_fd_poll_method_', '')) if t else ''
-            if spec['check'] == 'unlinked':
-                ok, det = _check_unlinked(g, un, rec, sig[2], spec)
-            elif spec['check'] == 'tree':
-                ok, det = _check_tree(g, un, rec, sig[2], spec)
-            elif spec['check'] == 'marker':
-                ok, det = _check_marker(g, un, rec, sig[2], spec)
-            elif spec['check'] == 'poll-slot':
-                ok, det = _check_poll_slot(g, un, rec, spec, idxkeys)
-            elif spec['check'] == 'heap-slot':
-                ok, det = _check_heap_slot(g, un, rec, spec)
-            elif spec['check'] == 'epoll-sync':
-                ok, det = _check_epoll_sync(g, un, prog, t)
-            elif spec['check'] == 'sub':
-                ok, det = _check_sub(g, un, rec, sig[2], spec)
-            else:
-                raise AnalysisBroken('unknown holder check %s' % spec['check'])
+            try:
+                ok, det = _holder_check(prog, found, sig, spec, un, t, idxkeys, actual.get(sig, sig)[2])
+            except AnalysisBroken as ex:
+                ok, det = False, 'cannot be shown: %s' % ex
             ctx.ob('R-C01c', inst + tag, ok, loc=un.loc, detail=det, fn=un.q)
 
 
@@ -668,48 +923,56 @@ def batch_live(ctx):
         p = l['base'] if l.get('k') == 'index' else l['e']
         slot_seeds |= {d for d in h01.pointer_closure(f, h01.designators(p)) if d[0] == 'fld'}
     for t, slots in sorted(prog.method_tables().items()):
-        if not slots.get('poll'):
-            raise AnalysisBroken('%s: no poll slot' % t)
-        f = prog.resolve(*slots['poll'])
-        g = h01.inlined(prog, f, method_table=t, expand_methods=True)
-        waits = [e for e in g.events() if is_call(e, tuple(WAIT_PRIMITIVES)) and e['ev'] == 'call']
-        if not waits:
-            raise AnalysisBroken('%s: wait primitive not found' % f.name)
-        seeds = set(slot_seeds)
-        for w in waits:
-            a = w['args'][WAIT_PRIMITIVES[w['callee']]]
-            d = h01.designators(a)
-            if not d:
-                raise AnalysisBroken('%s: array argument of %s not understood (%s)' % (f.name, w['callee'], canon(a)))
-            seeds |= d
-        T = h01.pointer_closure(g, seeds)
-        def tr(e, s):
-            if h01.cb_kind(g, e):
-                return e.get('loc')
-            return s
-        _, ev_in = forward(g, '', tr, lambda a, b: a or b)
-        bad = []
-        nreads = 0
-        for b, blk in g.blocks.items():
-            pts = []
-            for i, e in enumerate(blk.events):
-                if e['ev'] == 'load':
-                    pts.append((i, e, [e['e']]))
-                else:
-                    pts.append((i, e, [e[k] for k in ('rhs', 'args', 'fnexpr', 'value') if k in e]))
-            if blk.term and blk.term.get('cond') is not None:
-                pts.append((len(blk.events), dict(ev='load', e=blk.term['cond'], loc=blk.term.get('loc'), _b=b, _i=max(len(blk.events) - 1, 0)),
-                            [blk.term['cond']]))
-            for (i, e, xs) in pts:
-                if not xs or not h01.reads_block(xs, T):
-                    continue
-                nreads += 1
-                if ev_in.get((b, i)):
-                    bad.append((e, ev_in[(b, i)], xs))
-        if nreads == 0:
-            raise AnalysisBroken('%s: no read of the kernel-filled array found' % f.name)
-        e0 = bad[0][0] if bad else None
-        ctx.ob('R-C01d', '%s:%s' % (t.replace('iv_fd_poll_method_', ''), f.name), not bad, loc=e0['loc'] if e0 else f.loc,
-               detail=('%s is read after the user callback at %s' % (canon(bad[0][2][0]) if isinstance(bad[0][2][0], dict) else describe(e0), relpath(bad[0][1]))) if bad else
-                      '%d reads of the kernel-filled array, none after a user callback' % nreads,
-               path=path_to(g, e0) if e0 else None, fn=f.q)
+        try:
+            _batch_live_table(ctx, prog, t, slots, slot_seeds)
+        except AnalysisBroken as ex:
+            # one poll method that cannot be judged fails on its own; the other methods are still checked
+            ctx.ob('R-C01d', '%s:poll' % t.replace('iv_fd_poll_method_', ''), False, detail='cannot be shown: %s' % ex)
+
+
+def _batch_live_table(ctx, prog, t, slots, slot_seeds):
+    if not slots.get('poll'):
+        raise AnalysisBroken('%s: no poll slot' % t)
+    f = prog.resolve(*slots['poll'])
+    g = h01.inlined(prog, f, method_table=t, expand_methods=True)
+    waits = [e for e in g.events() if is_call(e, tuple(WAIT_PRIMITIVES)) and e['ev'] == 'call']
+    if not waits:
+        raise AnalysisBroken('%s: wait primitive not found' % f.name)
+    seeds = set(slot_seeds)
+    for w in waits:
+        a = w['args'][WAIT_PRIMITIVES[w['callee']]]
+        d = h01.designators(a)
+        if not d:
+            raise AnalysisBroken('%s: array argument of %s not understood (%s)' % (f.name, w['callee'], canon(a)))
+        seeds |= d
+    T = h01.pointer_closure(g, seeds)
+    def tr(e, s):
+        if h01.cb_kind(g, e):
+            return e.get('loc')
+        return s
+    _, ev_in = forward(g, '', tr, lambda a, b: a or b)
+    bad = []
+    nreads = 0
+    for b, blk in g.blocks.items():
+        pts = []
+        for i, e in enumerate(blk.events):
+            if e['ev'] == 'load':
+                pts.append((i, e, [e['e']]))
+            else:
+                pts.append((i, e, [e[k] for k in ('rhs', 'args', 'fnexpr', 'value') if k in e]))
+        if blk.term and blk.term.get('cond') is not None:
+            pts.append((len(blk.events), dict(ev='load', e=blk.term['cond'], loc=blk.term.get('loc'), _b=b, _i=max(len(blk.events) - 1, 0)),
+                        [blk.term['cond']]))
+        for (i, e, xs) in pts:
+            if not xs or not h01.reads_block(xs, T):
+                continue
+            nreads += 1
+            if ev_in.get((b, i)):
+                bad.append((e, ev_in[(b, i)], xs))
+    if nreads == 0:
+        raise AnalysisBroken('%s: no read of the kernel-filled array found' % f.name)
+    e0 = bad[0][0] if bad else None
+    ctx.ob('R-C01d', '%s:%s' % (t.replace('iv_fd_poll_method_', ''), f.name), not bad, loc=e0['loc'] if e0 else f.loc,
+           detail=('%s is read after the user callback at %s' % (canon(bad[0][2][0]) if isinstance(bad[0][2][0], dict) else describe(e0), relpath(bad[0][1]))) if bad else
+                  '%d reads of the kernel-filled array, none after a user callback' % nreads,
+           path=path_to(g, e0) if e0 else None, fn=f.q)
